@@ -179,6 +179,8 @@ def case_strategy(draw, depth=3):
         if nconds == 1 and draw(st.booleans()):
             if d > 0 and draw(st.integers(0, 2)) == 0:
                 els = {"elif": block(d - 1)}
+            elif draw(st.integers(0, 5)) == 0:
+                els = {"body": []}      # `with Else: pass`
             else:
                 els = {"body": [mark()] + stmts(d, draw(st.integers(0, 1)))}
         return {"conds": conds, "body": body, "else": els}
@@ -567,10 +569,31 @@ def run_case(case):
             try:
                 ref_run(case["prog"], dict(env), fmts, marks, info)
             except Unjudged:
-                prog.run(vec, tracker)
+                try:
+                    prog.run(vec, tracker)
+                except HarnessError as e:
+                    if "bit-test-elif-else" not in sfacts \
+                            or "disagree" not in str(e):
+                        raise
                 classes.append("unjudged")
                 continue
-            obs = prog.run(vec, tracker)
+            try:
+                obs = prog.run(vec, tracker)
+            except HarnessError as e:
+                # the mis-spliced jumps of such a chain can land behind the
+                # load of a compared register: the program then compares
+                # whatever the register held (a pointer), so interpreter and
+                # kernel need not agree - the chain is wrong either way
+                if "bit-test-elif-else" not in sfacts \
+                        or "disagree" not in str(e):
+                    raise
+                return dict(
+                    ok=False, nontrivial=True, classes=classes, key=key,
+                    facts=sorted(info["facts"]),
+                    bucket=(sorted(info["facts"]), classes),
+                    what=(f"{render(case)} with {env}: the generated code "
+                          f"compares a register it never loaded (result "
+                          f"depends on addresses)"))
             if obs.fault:
                 return dict(ok=False, nontrivial=True, classes=classes,
                             facts=sorted(info["facts"]), key=key,
